@@ -60,7 +60,8 @@ class Sim:
     def do_close_state(self, o): self.open[o] = None
     def do_open(self, o, k, mode, op='open'):
         if op == 'open': self.emit(f'open {o} {k} {mode}')
-        else: self.emit(f'new {o} {k} {mode}')
+        elif op == 'new': self.emit(f'new {o} {k} {mode}')
+        # op == 'withnew': the constructor sits in the header of a with block, the caller writes the line
         base = mode[0]; plus = '+' in mode
         ok = True
         if mode == 'x' or k == 90: ok = False
@@ -69,7 +70,7 @@ class Sim:
         if self.file_busy(k, o) and k < NFILE: return       # answered `busy`, nothing happens
         if k == 91 and not (base in 'wa' and not plus): return
         self.do_close_state(o)
-        if op == 'new': self.exists[o] = ok
+        if op != 'open': self.exists[o] = ok
         if not ok: return
         if k < NFILE:
             if base == 'w': self.flen[k] = 0
@@ -170,7 +171,8 @@ def gen_roundtrip(rng, maxbuf):
         if not s.open[o] and rng.random() < 0.7: s.emit(f'dump {k}')
     return s.lines
 
-LIFE = ['new', 'newopen', 'open', 'openfail', 'close', 'stop', 'with', 'withclose', 'withx', 'del', 'write', 'tell', 'openfull']
+LIFE = ['new', 'newopen', 'open', 'openfail', 'close', 'stop', 'with', 'withclose', 'withx', 'del', 'write', 'tell', 'openfull',
+        'withcont', 'withbrk', 'wnew', 'wnewbrk', 'wcall', 'wnew0', 'wnewfail']
 def life_lines(o, k, sym, rng):
     if sym == 'new': return [f'new {o}']
     if sym == 'newopen': return [f'new {o} {k} w']
@@ -182,6 +184,14 @@ def life_lines(o, k, sym, rng):
     if sym == 'withclose': return [f'with {o} 2', f'tell {o}', f'close {o}']
     if sym == 'withx': return [f'withx {o} 1', f'write {o} 2 2']
     if sym == 'del': return [f'del {o}']
+    if sym == 'withcont': return [f'withv {o} cont 1', f'write {o} 3 1']
+    if sym == 'withbrk': return [f'withv {o} brk 1', f'write {o} 2 7']
+    # the source expression of with constructs the File (the slot must be free: delete first)
+    if sym == 'wnew': return [f'del {o}', f'withnew {o} {k} w fall 1', f'write {o} 3 1']
+    if sym == 'wnewbrk': return [f'del {o}', f'withnew {o} {k} w+ brk 1', f'write {o} 2 5']
+    if sym == 'wcall': return [f'del {o}', f'withcall {o} {k} a cont 1', f'write {o} 4 8']
+    if sym == 'wnew0': return [f'del {o}', f'withnew0 {o} fall 1', f'open {o} {k} w']
+    if sym == 'wnewfail': return [f'del {o}', f'withnew {o} 90 w fall 1', f'tell {o}']
     if sym == 'write': return [f'write {o} 5 9']
     if sym == 'tell': return [f'tell {o}']
     if sym == 'openfull': return [f'open {o} 91 w', f'write {o} 4 4']
@@ -190,7 +200,7 @@ def life_lines(o, k, sym, rng):
 def gen_lifecycle_exhaustive(maxlen):
     """every order of the life-cycle operations up to `maxlen` on one heap object (and the same on a stack object)"""
     import itertools, random
-    alpha = ['newopen', 'open', 'close', 'stop', 'with', 'withx', 'del', 'openfull']
+    alpha = ['newopen', 'open', 'close', 'stop', 'with', 'withx', 'del', 'openfull', 'wnew', 'wnewbrk']
     out = []
     rng = random.Random(5)
     for n in range(1, maxlen + 1):
@@ -209,6 +219,60 @@ def gen_lifecycle_random(rng):
         if o < 4 and sym in ('new', 'newopen', 'del'): sym = 'open'
         s += life_lines(o, k if sym != 'open' else (o % NFILE), sym, rng)
     return s
+
+LEAVES = ['fall', 'fall', 'fall', 'cont', 'brk', 'throw']
+def with_stmt(rng, free, files, depth, maxbuf):
+    """one with statement whose source expression is `kind`, on a free heap slot and a free file, followed by the ops that
+    look at what it left behind (dump, read back, scan, del); `free` / `files` are consumed while the block is open"""
+    o = free.pop(rng.randrange(len(free))); k = files.pop(rng.randrange(len(files)))
+    kind = rng.choice(['withnew', 'withnew', 'withnew', 'withcall', 'withcall', 'withnew0', 'withv'])
+    leave = rng.choice(LEAVES)
+    mode = rng.choice(['w', 'w', 'w+', 'wb', 'a', 'w+b'])
+    pre, body, post = [], [], []
+    text = rng.random() < 0.4
+    if kind == 'withv':
+        pre.append(f'new {o} {k} {mode}' if rng.random() < 0.7 else f'new {o}')
+        if pre[0] == f'new {o}' and rng.random() < 0.7: pre.append(f'open {o} {k} {mode}')
+    if kind == 'withnew0' and rng.random() < 0.8: body.append(f'open {o} {k} {mode}')
+    total = 0
+    for _ in range(rng.randrange(0, 5)):
+        r = rng.random()
+        if r < 0.5:
+            if text: body.append(f'print {o} {rng.choice([0, 7, -1, 42, 123456789, -10**12, rng.randrange(-10**6, 10**6)])}')
+            else:
+                n = rng.choice([0, 1, 2, 5, 64, 300, BUF - 1, BUF, BUF + 1]) if rng.random() < 0.8 else interesting_len(rng, maxbuf)
+                body.append(f'write {o} {n} {rng.randrange(1 << 30)}'); total += n
+        elif r < 0.62: body.append(f'tell {o}')
+        elif r < 0.70: body.append(f'flush {o}')
+        elif r < 0.76 and free and files and depth < 2: body += with_stmt(rng, free, files, depth + 1, maxbuf)
+        elif r < 0.82: body.append(f'close {o}')                       # the step clause then finds a closed File: IOError
+        elif r < 0.88 and files:                                       # reopen inside: the step clause closes the second stream
+            k2 = rng.choice(files); body.append(f'open {o} {k2} {rng.choice(["w", "a", "w+"])}'); post.append(f'dump {k2}')
+        elif r < 0.92: body.append(f'seek {o} 0 set')
+        elif r < 0.96: body.append(f'eof {o}')
+        else: body.append(f'del {o}')                                   # refused by both sides inside the object's own block
+    hdr = {'withnew': f'withnew {o} {k} {mode} {leave} {len(body)}', 'withcall': f'withcall {o} {k} {mode} {leave} {len(body)}',
+           'withnew0': f'withnew0 {o} {leave} {len(body)}', 'withv': f'withv {o} {leave} {len(body)}'}[kind]
+    if kind != 'withv' and rng.random() < 0.06:                        # a constructor that throws: the loop is never entered
+        hdr = f'{kind if kind != "withnew0" else "withnew"} {o} {rng.choice([90, k])} {rng.choice(["w", "x", "r"]) if rng.random() < .5 else "x"} {leave} {len(body)}'
+    post.insert(0, f'tell {o}')
+    if leave in ('brk', 'throw') and rng.random() < 0.7: post.append(f'{rng.choice(["close", "stop"])} {o}')
+    post.append(f'dump {k}')
+    if rng.random() < 0.7:
+        post.append(f'open {o} {k} {rng.choice(["r", "r+", "rb"])}')
+        if text: post += [f'scan {o}'] * rng.randrange(1, 4)
+        else: post += [f'read {o} {c}' for c in chunking(rng, min(total, 3 * BUF) + rng.choice([0, 0, 1]), allow_zero=False)[:6]]
+        post += [f'eof {o}', f'close {o}'] if rng.random() < 0.6 else []
+    if rng.random() < 0.8: post.append(f'del {o}'); free.append(o)
+    files.append(k)
+    return pre + [hdr] + body + post
+
+def gen_with(rng, maxbuf):
+    free = [4, 5, 6, 7]; files = list(range(NFILE)); lines = []
+    for _ in range(rng.randrange(1, 5)):
+        if not free or not files: break
+        lines += with_stmt(rng, free, files, 0, maxbuf)
+    return lines
 
 def gen_text(rng):
     s = Sim(rng); o = rng.randrange(8)
@@ -275,12 +339,27 @@ def soup_step(s, rng, maxbuf, depth=0):
     elif r < 0.18 and o >= 4: s.delete(o)
     elif r < 0.25: s.close(o, rng.choice(['close', 'close', 'stop']))
     elif r < 0.29 and depth < 3:
-        kind = rng.choice(['with', 'with', 'withx'])
+        kind = rng.choice(['with', 'with', 'withx', 'withv', 'withnew', 'withnew', 'withcall', 'withnew0'])
+        leave = {'with': 'fall', 'withx': 'throw'}.get(kind) or rng.choice(LEAVES)
+        free = [p for p in range(4, 8) if not s.exists[p]]
+        entered = True; hdr = None
+        if kind in ('withnew', 'withcall', 'withnew0') and free:
+            o = rng.choice(free)
+            if kind == 'withnew0': s.exists[o] = True; s.open[o] = None; hdr = f'withnew0 {o} {leave}'
+            else:
+                k = s.free_file(o)
+                if k is None or rng.random() < 0.05: k = 90
+                mode = rng.choice(['w', 'w+', 'r', 'a', 'r+'])
+                s.do_open(o, k, mode, op='withnew'); entered = s.exists[o]
+                hdr = f'{kind} {o} {k} {mode} {leave}'
+        elif kind in ('withnew', 'withcall', 'withnew0'): kind = 'withv'
+        if hdr is None: hdr = f'{kind} {o}' + (f' {leave}' if kind == 'withv' else '')
         at = len(s.lines); s.emit('?'); s.inwith.append(o)
-        for _ in range(rng.randrange(0, 4)): soup_step(s, rng, maxbuf, depth + 1)
+        if entered:
+            for _ in range(rng.randrange(0, 4)): soup_step(s, rng, maxbuf, depth + 1)
         s.inwith.pop()
-        s.lines[at] = f'{kind} {o} {len(s.lines) - at - 1}'
-        if kind == 'with' and s.exists[o]: s.do_close_state(o)
+        s.lines[at] = f'{hdr} {len(s.lines) - at - 1}'
+        if leave in ('fall', 'cont') and s.exists[o]: s.do_close_state(o)
     elif r < 0.50:
         n = rng.choice([0, 1, 2, 5, 64, 300, BUF - 1, BUF, BUF + 1]) if rng.random() < 0.8 else interesting_len(rng, maxbuf)
         if st and st['last'] == 'r' and not st['eof'] and rng.random() < 0.9: s.seek_within(o)
@@ -349,6 +428,14 @@ class C20(Spec):
                   'C20_random_access (seek anywhere, write, seek back, read: identical), C20_print_transport (every fragment print_to hands to the '
                   'File arrives byte for byte), C20_scan_reads_bytes (scan_from is a function of the bytes after the position), '
                   'C20_double_close_refuted (the code before fix b3448e7 violates close-once on two concrete histories). '
+                  'The `with` construct is modelled as the for loop of with_in, clause by clause, over source expressions with side effects '
+                  '(a File constructed in the header) and the four ways out of a body: C20_with_close_once_system (close-once for every program with '
+                  'nested with blocks), C20_with_protocol / C20_with_evaluated_once (for every program the source expression of each block is '
+                  'evaluated exactly once and every stop_in is applied to the object that evaluation returned), C20_with_closes_bound and '
+                  'C20_with_inline_balanced (for every body, the File constructed in the header ends closed, each fopen matched by one fclose of that '
+                  'handle), C20_with_inline_roundtrip (what the body wrote is in the file afterwards, one fopen / one fclose of that handle), '
+                  'C20_with_stop_on_expression_refuted (the variant `X = stop_in(S)` re-evaluates the expression: a second File is opened and closed, '
+                  'the first never, the file is truncated). C20_with_macro_clauses ties the three clauses to include/Cello.h on every run. '
                   'The facts about File.c the proofs rest on (guard before the first stdio call in every wrapper; File_Close guarded and always dropping '
                   'the handle; open/del close a held handle) are re-extracted from the source on every run (C20_guard_table).')
     level_note = ('Trusted: Lean kernel; libc stdio is modelled by a reference implementation validated against glibc on every run (not verified); '
@@ -356,11 +443,13 @@ class C20(Spec):
                   'Not covered: Process; two streams on one file; a+ mode; octal/hex/overflowing %li input; I/O errors other than /dev/full.')
     rule = ('op files: (a) round trips: lengths 0…4 BUFSIZ biased to buffer boundaries, random chunkings of writes and reads (with empty chunks '
             'and over-reads), reopen or seek to start by SET/CUR/END, then random seeks within the file; (b) every order of the life-cycle ops '
-            '(new+open, open, close, stop, with, withx, del, open /dev/full+write) up to length 3 (quick) / 4 (thorough) plus random longer ones over several objects; '
+            '(new+open, open, close, stop, with, withx, del, open /dev/full+write, del+with over inline new left normally / by break) up to length 3 (quick) / 4 (thorough) plus random longer ones over several objects; '
             '(c) every operation on Files closed in six different ways; (d) print_to/scan_from of Ints, mixed white space; (e) /dev/full: failing '
-            'fflush/fclose; (f) random mixtures over 8 objects and 6 files. non-trivial item = an op whose observation shows a stdio call or a '
+            'fflush/fclose; (f) random mixtures over 8 objects and 6 files; (g) run first: with blocks whose source expression constructs the File '
+            '(inline new(File, path, mode), new(File), a call-counting function) or is a variable, bodies that write / print / close / reopen / '
+            'nest further blocks, left by falling off the end, continue, break or an exception, then dump + read back / scan of what they left. non-trivial item = an op whose observation shows a stdio call or a '
             'refusal on a closed File; distinct = distinct (op text, observation).')
-    trusted_base = ('translate/g_file.py (regex over src/File.c, src/Start.c, with_in)',
+    trusted_base = ('translate/g_file.py (regex over src/File.c, src/Start.c, the three clauses of with_in)',
                     'harness/h_file.c + lean/Driver/File.lean (correspondence is testing)',
                     'glibc stdio is modelled by Cello.File.refIO (validated each run against libc on a twin file), not verified',
                     'print_to/scan_from conversions (vfprintf/vfscanf) trusted: C14/C15')
@@ -368,7 +457,11 @@ class C20(Spec):
                    'no read directly after write or write directly after read without fseek/fflush/EOF (undefined in C): such ops are skipped by both sides',
                    'scan_from only on plain decimal text (no leading zeros / 0x, at most 18 digits)',
                    '/dev/full: write-only modes, at most 1024 buffered bytes, no seek', 'no write at an offset beyond 1 MiB',
-                   'an object is not deleted inside its own with-block (use after free)')
+                   'an object is not deleted inside its own with-block (use after free)',
+                   'a with block left by break or by an exception does not run stop_in (that is what the for loop of with_in does): the stream stays '
+                   'open until sclose / del / the collector; modelled as such, not reported',
+                   'a File constructed in the header of a with block is kept reachable by the harness (slot objs[o]) so that the collector does not '
+                   'finalise it at a time the model cannot predict')
     def cases(self, rng, tier, boost=1):
         quick = tier == 'quick'
         cs = []
@@ -376,6 +469,8 @@ class C20(Spec):
         def pack(name, seqs, per):
             # several independent histories per process would share files; keep one history per case, but join short ones
             for i, ls in enumerate(seqs): cs.append(Case(f'{name}{i}', ls))
+        # first: the family whose oracle is the sharpest on the `with` macro (a broken macro is then reported in seconds)
+        pack('with', [gen_with(rng, maxbuf) for _ in range((120 if quick else 900) * boost)], 1)
         n_rt = (150 if quick else 1200) * boost
         pack('rt', [gen_roundtrip(rng, maxbuf) for _ in range(n_rt)], 1)
         ex = gen_lifecycle_exhaustive(3 if quick else 4)
@@ -398,6 +493,9 @@ class C20(Spec):
         for l in m_out.split('\n'):
             if l.startswith('R bracketed=') and 'true' not in l:
                 return 'the model\'s own log of stdio calls is not well bracketed (track = none) on this history'
+            if l.startswith('R withproto=') and 'true' not in l:
+                return ('the model\'s own with loops break the protocol (wtrack = none) on this history: a source expression was evaluated '
+                        'again by the step clause, or stop_in received an object that is not the loop variable')
         return None
     def _pairs(self, case, c_out):
         ops = [l for l in case.lines if l.strip() and not l.startswith('#')]
